@@ -12,6 +12,7 @@ C17 — Access boundaries.
 import LiquerModel.StoreProxy
 import LiquerProofs.Lemmas.StoreFile
 import LiquerProofs.Lemmas.StoreSpec
+import LiquerProofs.Lemmas.StoreFileFrame
 import LiquerProofs.Inst.ReadOnly
 
 namespace Liquer.C17
@@ -192,8 +193,36 @@ theorem metaPath_contained (root : Path) (k : Key) (p : Path) (h : File.metaPath
     · cases h; exact meta_contained_comps root k hok
   · simp [hok] at h
 
+/-! ### (b') containment at the level of the file system state -/
+
+/-- **nothing outside the root is written or deleted**: after any history of operations (well-formed or not, any
+keys) on a `FileStore` whose root directory exists, every path that is not at or below the root holds what it held -/
+theorem contained_state (root : Path) (fs : PFS) (h : List StoreOp) (hr : rootReady root fs) (p : Path)
+    (hp : within root p = false) : ((fileOps root).run fs h).get p = fs.get p :=
+  (frame_run fs h hr).outside p hp
+
+/-- … and the root directory (with its ancestors) is still there -/
+theorem root_kept (root : Path) (fs : PFS) (h : List StoreOp) (hr : rootReady root fs) :
+    rootReady root ((fileOps root).run fs h) :=
+  (frame_run fs h hr).ready hr
+
+-- non-vacuity: the initial state of a store at `/s/r` is ready, and a sentinel beside the root survives a history
+example : rootReady [['s'], ['r']] (fileInit [['s'], ['r']]) := by
+  intro a ha
+  have hl := ha.length_le
+  obtain ⟨t, ht⟩ := ha
+  match a, t, ht, hl with
+  | [], _, _, _ => rfl
+  | [x], _, ht, _ => simp at ht; rw [ht.1]; rfl
+  | [x, y], _, ht, _ => simp at ht; rw [ht.1, ht.2.1]; rfl
+  | _ :: _ :: _ :: _, _, _, hl => simp at hl
+example : ((fileOps [['s'], ['r']]).run ((fileInit [['s'], ['r']]).set [['s'], ['x']] (.dfile [9]))
+    [.store [dotdot, ['x']] [1] { user := [] }, .store [['a']] [1] { user := [] }, .removedir [dot] true]).get [['s'], ['x']]
+    = some (.dfile [9]) := by rfl
+
 end Liquer.C17
 
 -- OBLIGATIONS: Liquer.C17.ro_refuses Liquer.C17.ro_step_unchanged Liquer.C17.ro_run_unchanged Liquer.C17.ro_reads Liquer.C17.ro_hist_reads Liquer.C17.ro_idem
 -- OBLIGATIONS: Liquer.C17.contained Liquer.C17.meta_contained Liquer.C17.contained_comps Liquer.C17.meta_contained_comps Liquer.C17.rejects Liquer.C17.rejects_string Liquer.C17.meta_rejects Liquer.C17.path_contained Liquer.C17.metaPath_contained
+-- OBLIGATIONS: Liquer.C17.contained_state Liquer.C17.root_kept
 -- OBLIGATIONS: Liquer.Inst.memory_mutators_refused Liquer.Inst.file_mutators_refused Liquer.Inst.mutators_modelled Liquer.Inst.modelled_refused Liquer.Inst.method_modelled
